@@ -98,9 +98,10 @@ def transcript(case, cfg):
   rt = chartgen.build(case["spec"], decorate=cfg["deco"])
   chart = hsmcheck.make_host(cfg["host"])
   sink = []
-  if cfg["host"].startswith("queued") and not cfg.get("late_live"):
-    chart.live_spy = cfg["live_spy"]
-    chart.live_trace = cfg["live_trace"]
+  if cfg["host"].startswith("queued"):
+    if not cfg.get("late_live"):
+      chart.live_spy = cfg["live_spy"]
+      chart.live_trace = cfg["live_trace"]
     chart.register_live_spy_callback(sink.append)
     chart.register_live_trace_callback(sink.append)
   out = []
